@@ -426,6 +426,16 @@ def extra(repo, reg, tier, seed):
                       detail="bounded: 4 files ('!' and quotes of the other kind inside character literals, trailing comments in "
                              "free and fixed form, a procedure declared in an interface block of a module and used in another "
                              "file): references from every occurrence vs the expected occurrence set"))
+    from contracts import c05_gen
+    w, n, ne = c05_gen.run_references(tier, seed)
+    it = Item("C06/session/generated_references_oracle", "refuted" if w else "bounded-ok", "native-run(bounded)", 0.0, mode="bounded",
+              witness=w, confirmed=True if w else None, func=f"{LS}.get_all_references",
+              detail=f"bounded: {n} generated multi-file programs (the C05 model: shadowing, USE with ONLY and renames, re-export, "
+                     f"mixed-case spellings), {ne} entities: every use site the model binds to the declaration is among its "
+                     "references, every reference spans the identifier and resolves back to the declaration, and the set is the same "
+                     "when asked from another occurrence")
+    it.count = ne
+    items.append(it)
     w = native_renamed_use()
     items.append(Item("C06/session/native_references_renamed_use", "refuted" if w else "bounded-ok", "native-run(bounded)", 0.0,
                       mode="bounded", witness=w, confirmed=True if w else None, func=f"{LS}.get_all_references",
